@@ -272,9 +272,23 @@ FORMS = ('Print', 'JSON', 'XML', 'YAML')
 
 
 def token_obligations(check, tasks):
-    Q = Quant(check, types=('double',), other_types=(), conv=False, hash_=False)
+    nforms = 0
+    ns = 0
+    NT = ['double', 'float', 'long double']
+    loaded = pmap(lambda T: Quant(check, types=(T,), other_types=(), conv=False, hash_=False), NT)
+    for T, Q in zip(NT, loaded):
+        x, y = token_obligations_for(check, Q, T)
+        nforms += x
+        ns += y
+    check.extra['composite_forms'] = nforms
+    check.extra['stream_operators'] = ns
+    if nforms < 3 * (4 * 4 + 10 * 4):
+        check.error('must-fire: expected >= 168 composite forms, found %d' % nforms)
+
+
+def token_obligations_for(check, Q, T):
     low = Q.low
-    T = 'double'
+    tag = T.replace(' ', '_')
     done = set()
     targets = []
     for cls in TENSORS:
@@ -298,7 +312,7 @@ def token_obligations(check, tasks):
             with_unit = len(f.params) == 2
             if len(f.params) > 2:
                 continue
-            name = 'C15.tokens.%s.%s%s' % (label, nm, '(unit)' if with_unit else '')
+            name = 'C15.tokens.%s.%s%s.%s' % (label, nm, '(unit)' if with_unit else '', tag)
             try:
                 ob = token_check(check, Q, low, f, canon, n, dimensional, with_unit, name)
             except Unsupported as e:
@@ -307,16 +321,13 @@ def token_obligations(check, tasks):
             nforms += 1
             check.add(ob)
             check.under_contract(f)
-    check.extra['composite_forms'] = nforms
-    if nforms < 4 * 4 + 10 * 4:
-        check.error('must-fire: expected >= 56 composite forms, found %d' % nforms)
     # streaming equals printing: operator<<(stream, q) inserts exactly q.Print()
     ns = 0
     for f in Q.free_functions(names={'operator<<'}):
         if len(f.params) != 2 or vt(f.params[1][1])[0] != 'rec':
             continue
         canon = vt(f.params[1][1])[1]
-        name = 'C15.stream.%s' % (low.record(canon).template or canon)
+        name = 'C15.stream.%s.%s' % (low.record(canon).template or canon, tag)
         try:
             ob = stream_check(check, Q, low, f, canon, name)
         except Unsupported as e:
@@ -325,7 +336,7 @@ def token_obligations(check, tasks):
         ns += 1
         check.add(ob)
         check.under_contract(f)
-    check.extra['stream_operators'] = ns
+    return nforms, ns
 
 
 def conv_summaries(low):
@@ -367,6 +378,7 @@ def token_check(check, Q, low, f, canon, n, dimensional, with_unit, name):
     r = S.call(f, args, st)
     toks = list(S.as_tokv(r)[1])
     comps = leaves(val)
+    Tn = low.record(canon).targs[-1] if low.record(canon).targs else 'double'
     ob = Ob(name, 'REAL', f.qualname, Q.loc(f))
     ob.backend = 'phqv symex (token lists)'
     nums = [tok for g, tok in toks if tok[0] == 'NUM']
@@ -386,6 +398,8 @@ def token_check(check, Q, low, f, canon, n, dimensional, with_unit, name):
                 ok = tok[1] == want
             if not ok:
                 bad.append('number %d is %s, expected component %d%s' % (i, short(tok[1]), i, ' converted to the unit' if with_unit else ''))
+            if len(tok) > 2 and tok[2] != Tn:
+                bad.append('number %d is printed as a %s (its digits are those of that type), the quantity holds %s' % (i, tok[2], Tn))
     if dimensional:
         if len(abbrs) != 1:
             bad.append('%d unit abbreviations' % len(abbrs))
@@ -418,14 +432,22 @@ def token_check(check, Q, low, f, canon, n, dimensional, with_unit, name):
     T = low.record(canon).targs[-1] if low.record(canon).targs else 'double'
     form_call = 'q.%s(%s)' % (form, 'u' if with_unit else '')
     ut = low.record(canon).targs[0] if dimensional else None
+    hdr = 'PhQ/' + low.record(canon).template + '.hpp'
+    exp_lines = ''
+    for i in range(n):
+        if with_unit:
+            exp_lines += '  std::printf("EXPECT %%s\\n", PhQ::Print(PhQ::Convert(raw[%d], PhQ::Standard<PhQ::%s>, u)).c_str());\n' % (i, ut)
+        else:
+            exp_lines += '  std::printf("EXPECT %%s\\n", PhQ::Print(raw[%d]).c_str());\n' % i
     ob.replay = {'values': vals, 'with_unit': with_unit, 'dimensional': dimensional, 'cpp':
-                 '#include <%s>\n%s#include <cstdio>\n#include <cstring>\n#include <string>\nint main() {\n  %s raw[%d] = {%s};\n  %s q; std::memcpy(&q, raw, sizeof q);\n%s  std::string s = %s;\n  std::printf("%%s\\n%s", s.c_str()%s);\n  return 0; }\n' % (
-                     ('PhQ/' + low.record(canon).template + '.hpp'), ('#include <PhQ/Unit/%s.hpp>\n' % ut.split('::')[1]) if dimensional else '', T, n, ', '.join(repr(v) for v in vals),
+                 '#include <%s>\n%s#include <cstdio>\n#include <cstring>\n#include <string>\nint main() {\n  %s raw[%d] = {%s};\n  %s q; std::memcpy(&q, raw, sizeof q);\n%s  std::string s = %s;\n  std::printf("%%s\\n%s", s.c_str()%s);\n%s  return 0; }\n' % (
+                     hdr, ('#include <PhQ/Unit/%s.hpp>\n' % ut.split('::')[1]) if dimensional else '', T, n, ', '.join(repr(v) for v in vals),
                      replay.cpp_record(low, canon),
                      ('  auto u = static_cast<PhQ::%s>(1);\n' % ut) if dimensional else '',
                      form_call,
                      '%s\\n' if dimensional else '',
-                     (', std::string(PhQ::Abbreviation(%s)).c_str()' % ('u' if with_unit else 'PhQ::Standard<PhQ::%s>' % ut)) if dimensional else '')}
+                     (', std::string(PhQ::Abbreviation(%s)).c_str()' % ('u' if with_unit else 'PhQ::Standard<PhQ::%s>' % ut)) if dimensional else '',
+                     exp_lines)}
     ob.text = '%s yields tokens %s' % (f.qualname, ' '.join('NUM' if tok[0] == 'NUM' else ('ABBR' if tok[0] == 'ABBR' else repr(tok[1])) for g, tok in toks))
     ob.status = 'discharged' if not bad else 'failed'
     if bad:
@@ -538,6 +560,16 @@ def adjudicate(check, ob):
                     bad.append('numbers in the text %s, stored components %s' % (nums, info['values']))
                 if info['dimensional'] and abbr and abbr not in text:
                     bad.append('the text "%s" does not contain the abbreviation "%s" of the unit' % (text, abbr))
+                # the number strings of the text must be exactly PhQ::Print of each (converted) component, in order
+                expect = [l[7:] for l in lines if l.startswith('EXPECT ')]
+                pos = 0
+                for i, e in enumerate(expect):
+                    j = text.find(e, pos)
+                    nxt = text[j + len(e):j + len(e) + 1] if j >= 0 else ''
+                    if j < 0 or nxt.isdigit():
+                        bad.append('component %d: the text %r does not contain PhQ::Print of the component, %r, after position %d' % (i, text, e, pos))
+                        break
+                    pos = j + len(e)
                 if bad:
                     confirmed, rec['mismatch'] = True, bad
     except Exception as e:
